@@ -37,7 +37,7 @@ RULE = ('cmp cases: all ordered pairs (and, for the order laws, all triples) of 
         'of one context from from_objects, close_by_one, close_by_one_objectwise, close_by_one_objectwise_fbarray '
         '(also directly on an MVContext), lindig_algorithm, sofia, random_forest_concepts, ConceptLattice.'
         'from_context with each algo, and read back from dict / json: accepted and ordered across routes, refused '
-        'across contexts incl. MVContext vs its binarised FormalContext); fromobj cases: every object subset of a context with <= 6 (quick) / 8 (thorough) objects by '
+        'across contexts incl. MVContext vs its binarised FormalContext and K vs the transposed lattice L.T); fromobj cases: every object subset of a context with <= 6 (quick) / 8 (thorough) objects by '
         'index and by name, permuted subsets, listings that repeat objects (shorter than, as long as and longer than the '
         'number of objects), unknown names, is_extent, is_monotone; pallobj cases: every object subset of many-valued contexts mixing SetPS (empty value sets, '
         'multi-valued rows), AttributePS and the two interval engines, with the pattern_types dict listed in '
@@ -190,6 +190,11 @@ def concepts_for(case, sel, K):
     kind = sel[0]
     if kind == 'route':
         return route_concepts(K, cls, sel)
+    if kind == 'latT':      # the concepts of the transposed lattice object L.T (K is the ORIGINAL context)
+        _, k, seed, cap = sel
+        cs = list(ConceptLattice.from_context(K).T)
+        r = random.Random(seed)
+        return r.sample(cs, cap) if len(cs) > cap else cs
     if kind in ('lat', 'cbo'):
         _, k, arg, seed, cap = sel
         try:
@@ -328,6 +333,8 @@ def select_concepts(case, ctxs_in):
             K = mutate(ctxs[0], case['ctxs'][0], case['ctxs'][1], case['pattern'], mut)
         elif 'binarize_of' in case['ctxs'][k]:
             K = make_ctx(case['ctxs'][case['ctxs'][k]['binarize_of']]).binarize()
+        elif 'lattice_T_of' in case['ctxs'][k]:
+            K = make_ctx(case['ctxs'][case['ctxs'][k]['lattice_T_of']])
         else:
             K = make_ctx(case['ctxs'][k])
             if mut and k == 0:
@@ -351,6 +358,13 @@ def run_cmp(case):
             fresh.append(B.hash_fixed())
             resolved.append({'onames': list(src['onames']), 'anames': list(range(B.n_attributes)),
                              'table': canon(B.data.to_list())})
+        elif 'lattice_T_of' in c:
+            # ConceptLattice.T marks its concepts as concepts of ANOTHER context -- the transposed one -- by
+            # the negated hash of the original context (not by hash_fixed of K.T)
+            src = case['ctxs'][c['lattice_T_of']]
+            fresh.append(-make_ctx(src).hash_fixed())
+            resolved.append({'onames': list(src['anames']), 'anames': list(src['onames']),
+                             'table': [list(col) for col in zip(*src['table'])]})
         else:
             fresh.append(make_ctx(c).hash_fixed())
             resolved.append(None)
@@ -800,7 +814,13 @@ def routes_case(rng, tier, pattern, with_rf=False):
         ctxs.append({'binarize_of': 0})
         sel = sel[:4] + [['route', 1, name, seed + 70 + i, 2]
                          for i, name in enumerate(rng.sample(['cbo', 'cbo_fb', 'lindig', 'sofia', 'from_objects'], 3))]
-    return {'kind': 'cmp', 'pattern': pattern, 'stream': 'routes' + ('-rf' if with_rf else ''), 'ctxs': ctxs, 'sel': sel}
+    stream = 'routes' + ('-rf' if with_rf else '')
+    if not pattern and len(ctxs) == 1 and rng.random() < 0.5 and sorted(a['onames']) != sorted(a['anames']):
+        # concepts of L.T : another context (extents are attribute indexes of K) -- refused against K's concepts
+        ctxs.append({'lattice_T_of': 0})
+        sel = sel[:4] + [['latT', 1, seed + 90, 4]]
+        stream += '-T'
+    return {'kind': 'cmp', 'pattern': pattern, 'stream': stream, 'ctxs': ctxs, 'sel': sel}
 
 
 def mining_case(rng, tier):
